@@ -146,6 +146,37 @@ def _nogo_polys(case):
     return out
 
 
+def features(case, nogo, rotations_deg=None):
+    """input-side predicates that tell the known weak spots of RowWise apart (see known_findings.json)"""
+    poly = case["poly"]
+    rots = rotations_deg if rotations_deg is not None else [case.get("rot_deg")]
+    xs = [v[0] for v in poly]
+    ys = [v[1] for v in poly]
+    ext = max(max(xs) - min(xs), max(ys) - min(ys), 1e-9)
+    par = degen = nearvert = False
+    n = len(poly)
+    for i in range(n):
+        a, b, c = poly[i - 2], poly[i - 1], poly[i]
+        dx, dy = b[0] - a[0], b[1] - a[1]
+        L = math.hypot(dx, dy)
+        if L < 1e-6 * ext:
+            degen = True
+            continue
+        if abs(dx * (c[1] - a[1]) - dy * (c[0] - a[0])) / L < 1e-6 * ext:
+            degen = True  # a nearly straight corner
+        if 0.0 < abs(dx) <= 1e-6 * abs(dy):
+            nearvert = True  # slope ~1e6..1e16 in vector_intersect's slope/intercept form
+        ang = math.degrees(math.atan2(dy, dx))
+        for rot in rots:
+            if rot is None:
+                continue
+            d = (ang - rot) % 180.0
+            if min(d, 180.0 - d) < 2e-3:
+                par = True
+    return {"rows_parallel_to_an_edge": par, "nogo_zones": len(nogo) > 0, "near_degenerate_outline": degen,
+            "near_vertical_edge": nearvert}
+
+
 def _budget(case):
     poly = case["poly"]
     area = abs(sum(poly[i - 1][0] * poly[i][1] - poly[i - 1][1] * poly[i][0] for i in range(len(poly)))) / 2
@@ -155,14 +186,15 @@ def _budget(case):
     return int(2_000_000 + 40 * n * n)
 
 
-def _generate(case, poly, nogo, s, rot, perimeter):
+def _generate(case, poly, nogo, s, rot, perimeter, itol=None):
     rw, sh = _rw()
     field = sh.Shapes(poly)
     ng = [sh.Shapes(z) for z in nogo]
     with fuelmod.fuel([rw, sh], _budget(case)) as meter:
         try:
             if perimeter is None:
-                pts = rw.gen_borehole_config(field, s, s, no_go=ng, rotate=rot)
+                kw = {} if itol is None else {"intersection_tolerance": itol}
+                pts = rw.gen_borehole_config(field, s, s, no_go=ng, rotate=rot, **kw)
             else:
                 pts = rw.two_space_gen_bhc(field, s, s, no_go=ng if ng else None, rotate=rot, p_space=perimeter * s)
         except fuelmod.FuelExhausted as e:
@@ -199,7 +231,28 @@ def check_gen(case, rec):
     nogo = _nogo_polys(case)
     rot = case["rot_deg"] * math.pi / 180.0
     per = case.get("perimeter")
-    pts, used = guarded(_generate, case, poly, nogo, s, rot, per, what="rowwise generation")
+    feats = features(case, nogo)
+    try:
+        pts, used = guarded(_generate, case, poly, nogo, s, rot, per, what="rowwise generation")
+        _gen_oracles(case, rec, poly, nogo, s, rot, per, pts, used)
+    except Violation as v:
+        v.sig.update(feats)
+        raise
+    axis_rect = len(poly) == 4 and all(poly[i][0] == poly[i - 1][0] or poly[i][1] == poly[i - 1][1] for i in range(4))
+    if not axis_rect or case.get("touch", "none") != "none":
+        rec.nontriv(case)
+    rec.cls("touch_" + case.get("touch", "none"))
+    rec.cls("perimeter" if per is not None else "no_perimeter")
+    rec.cls(f"nogo_{len(nogo)}")
+    for k, val in feats.items():
+        if val:
+            rec.cls("feature_" + k)
+    if case.get("demo"):
+        rec.cls("demo_outline")
+    rec.sample({"poly": poly, "s": s, "rot_deg": case["rot_deg"], "perimeter": per, "nogo": nogo, "n_boreholes": int(len(pts))})
+
+
+def _gen_oracles(case, rec, poly, nogo, s, rot, per, pts, used):
     rec.note_max("max_line_events", used)
     rec.note_max("max_fuel_fraction", used / _budget(case))
     if len(pts) == 0:
@@ -212,7 +265,12 @@ def check_gen(case, rec):
     # translation
     dx, dy = case.get("shift", [0.0, 0.0])
     if (dx or dy) and per is None:
-        stable = all(len(_generate(case, poly, nogo, s * f, rot, per)[0]) == len(pts) for f in (1 - 1e-9, 1 + 1e-9))
+        def same_layout(q):
+            return len(q) == len(pts) and (len(pts) == 0 or float(cKDTree(q).query(pts, k=1)[0].max()) <= 1e-4)
+
+        # floor() knife edges (extent / spacing within round-off of an integer) are excluded: the layout must not change
+        # when the spacing is perturbed by 1e-9 relative
+        stable = all(same_layout(_generate(case, poly, nogo, s * f, rot, per)[0]) for f in (1 - 1e-9, 1 + 1e-9))
         if stable:
             poly2 = [[v[0] + dx, v[1] + dy] for v in poly]
             nogo2 = [[[v[0] + dx, v[1] + dy] for v in z] for z in nogo]
@@ -221,22 +279,13 @@ def check_gen(case, rec):
             if ok and len(pts):
                 a = pts + np.array([dx, dy])
                 dist = cKDTree(pts2).query(a, k=1)[0]
-                ok = float(dist.max()) <= 1e-6
+                ok = float(dist.max()) <= 1e-4  # row/outline intersections carry ~1e-8 relative round-off
             if not ok:
                 raise Violation(f"translating the lot by ({dx}, {dy}) changes the field: {len(pts)} -> {len(pts2)} boreholes "
                                 f"or positions differ", sig={"kind": "translation"})
             rec.cls("translation_checked")
         else:
             rec.cls("translation_knife_edge(skipped)")
-    axis_rect = len(poly) == 4 and all(poly[i][0] == poly[i - 1][0] or poly[i][1] == poly[i - 1][1] for i in range(4))
-    if not axis_rect or case.get("touch", "none") != "none":
-        rec.nontriv(case)
-    rec.cls("touch_" + case.get("touch", "none"))
-    rec.cls("perimeter" if per is not None else "no_perimeter")
-    rec.cls(f"nogo_{len(nogo)}")
-    if case.get("demo"):
-        rec.cls("demo_outline")
-    rec.sample({"poly": poly, "s": s, "rot_deg": case["rot_deg"], "perimeter": per, "nogo": nogo, "n_boreholes": int(len(pts))})
 
 
 def check_rect(case, rec):
@@ -245,7 +294,11 @@ def check_rect(case, rec):
     xs = [v[0] for v in poly]
     ys = [v[1] for v in poly]
     x0, y0, W, H = min(xs), min(ys), max(xs) - min(xs), max(ys) - min(ys)
-    pts, used = guarded(_generate, case, poly, [], s, 0.0, None, what="rowwise generation")
+    try:
+        pts, used = guarded(_generate, case, poly, [], s, 0.0, None, what="rowwise generation")
+    except Violation as v:
+        v.sig.update(features(case, [], [0.0]))
+        raise
 
     def counts(L):
         q = L / s
@@ -295,12 +348,30 @@ def check_optim(case, rec):
     per = case.get("perimeter")
     d2r = math.pi / 180.0
     r0, r1 = case["rot_lo"] * d2r, case["rot_hi"] * d2r
+    rots = []
+    rt = r0
+    while rt < r1:
+        rots.append(rt / d2r)
+        rt += case["step"] * d2r
+    feats = features(case, [], rots)
+    try:
+        _optim_oracles(case, rec, rw, sh, poly, s, per, d2r, r0, r1)
+    except Violation as v:
+        v.sig.update(feats)
+        raise
+    for k, val in feats.items():
+        if val:
+            rec.cls("feature_" + k)
+
+
+def _optim_oracles(case, rec, rw, sh, poly, s, per, d2r, r0, r1):
     # own loop over the same rotation sequence
     best = None
     rt = r0
     n_rot = 0
     while rt < r1:
-        pts, _ = guarded(_generate, case, poly, [], s, rt, per, what="rowwise generation")
+        # field_optimization_fr passes intersection_tolerance=1e-5 to gen_borehole_config
+        pts, _ = guarded(_generate, case, poly, [], s, rt, per, itol=1e-5, what="rowwise generation")
         if best is None or len(pts) > len(best[1]):
             best = (rt, pts)
         rt += case["step"] * d2r
@@ -349,15 +420,15 @@ def check_optim(case, rec):
 
 
 def search_gen(ctx):
-    ctx.given(gen_case(), ctx.n(1500, 60_000))
+    ctx.given(gen_case(), ctx.n(12_000, 400_000))
 
 
 def search_rect(ctx):
-    ctx.given(lot(rect=True), ctx.n(400, 15_000))
+    ctx.given(lot(rect=True), ctx.n(2000, 60_000))
 
 
 def search_optim(ctx):
-    ctx.given(optim_case(), ctx.n(160, 5000), shrink=ctx.tier != "quick")
+    ctx.given(optim_case(), ctx.n(1200, 40_000))
 
 
 SUBS = [
